@@ -1,6 +1,6 @@
 """C24 -- the SymPy backend emits code with the flat model's meaning.
 
-E4, three bounded-exhaustive families of models fed as text to the real
+E4, five bounded-exhaustive families of models fed as text to the real
 pymoca.backends.sympy.generator.generate; the generated source is compiled and executed with the real
 OdeModel whose solver step (compute_fg) is stubbed out, and the resulting object is compared with a small
 reference (own flattener for one level of components + vf.ref.mast evaluator):
@@ -8,9 +8,17 @@ reference (own flattener for one level of components + vf.ref.mast evaluator):
 * expr   every expression tree with <= N operator nodes over + - * / ^, unary minus, sin/cos/tan, der(state)
          and leaves of every classification (state, algebraic, parameter, constant, input, time, literal), as
          right-hand side (small ones also as left-hand side), printed with minimal and with full parentheses;
+* lit    every tree with <= n operator nodes over + - * / ^ and unary - / + in which every leaf position takes each
+         of: a real-valued variable, an integer-valued variable, an integer literal, a real literal -- so bare and
+         signed literals are met as base and as exponent of ^, as left / right operand of - and /, under a sign, ...;
+         the integer-valued variable makes powers of negative bases real, so the grouping shows in the value;
 * names  the base model (one variable per classification + one component `a` with a.b, a.k) with <= k variables
          renamed to names that are Python builtins / names on pymoca's own clash list / the suffixed or
          double-underscore names its mangler produces;
+* mangle a systematic set of flat names: every plain or dotted spelling (any nesting depth) that '.' -> '__' turns into
+         one of a few identifiers (a.b / a__b; a._b / a_.b / a___b; a.b.c / a.b__c / a__b.c / a__b__c; the same with an
+         underscore appended), and reserved names with their suffixed twins; models with one / two / three of these
+         names in every combination of categories (nested component classes are generated as the dots require);
 * struct the base model under <= k structural deviations (a class of variables absent / doubled, output that is
          a state, der inside an expression, components with input/output members, declaration forms).
 
@@ -1283,8 +1291,9 @@ def run(ctx):
         }
     )
     ctx.assumptions += [
-        "subset: scalar Real models, literal (possibly negated) parameter / constant values, one level of components without "
-        "connect; Python keywords (lambda, None, ...) and names the generated module itself uses (sympy, mech, self, sin, "
+        "subset: scalar Real models, literal (possibly negated) parameter / constant values, components without equations of "
+        "their own nested <= 2 deep (names / struct: one level, with member equations), no connect; lit: trees in which a "
+        "literal-only sub-expression has no real finite value (2 / (2 - 2), (-2) ^ 0.5) are left out; Python keywords (lambda, None, ...) and names the generated module itself uses (sympy, mech, self, sin, "
         "OdeModel, the class name) are not in the name alphabet",
         "a symbol is recognised as a Modelica variable by its name with '.' / '__' identified and trailing underscores ignored; "
         "list order is not judged; eqs entries are matched to flat equations in any order",
